@@ -290,31 +290,31 @@ func TestExhaustiveZipEntries(t *testing.T) {
 }
 
 func exhaustiveZipAtDepth(t *testing.T, rootName string, alpha []string, maxLen, depth int, total, nontrivial *atomic.Int64) {
-	{
-		enumerate(alpha, maxLen, func(segs []string) {
-			name := strings.Join(segs, "/")
-			for variant := 0; variant < 4; variant++ {
-				if variant%3 != 0 && len(segs) == maxLen && !stats.Thorough() {
-					continue // the longest names only as file and as directory+file in the quick tier
-				}
+	enumerate(alpha, maxLen, func(segs []string) {
+		name := strings.Join(segs, "/")
+		for variant := 0; variant < 4; variant++ {
+			if variant%3 != 0 && len(segs) == maxLen && !stats.Thorough() {
+				continue // the longest names only as file and as directory+file in the quick tier
+			}
+			var entries []zipEntry
+			switch variant {
+			case 0:
+				entries = []zipEntry{{Name: name}}
+			case 1:
+				entries = []zipEntry{{Name: name, Dir: true}}
+			case 2:
+				entries = []zipEntry{{Name: "ok"}, {Name: name}}
+			default:
+				entries = []zipEntry{{Name: name, Dir: true}, {Name: name + "/f"}}
+			}
+			func() {
 				sb := newSandbox(t, rootName, depth, false)
-				var entries []zipEntry
-				switch variant {
-				case 0:
-					entries = []zipEntry{{Name: name}}
-				case 1:
-					entries = []zipEntry{{Name: name, Dir: true}}
-				case 2:
-					entries = []zipEntry{{Name: "ok"}, {Name: name}}
-				default:
-					entries = []zipEntry{{Name: name, Dir: true}, {Name: name + "/f"}}
-				}
+				defer sb.remove() // also when a check fails
 				if unpackOp(t, sb, entries) {
 					nontrivial.Add(1)
 				}
-				total.Add(1)
-				sb.remove()
-			}
-		})
-	}
+			}()
+			total.Add(1)
+		}
+	})
 }
